@@ -9,8 +9,8 @@ from ..sx import explore, ex, PathAbort
 from . import c04
 
 A, B, C = c04.A, c04.B, "/'g'/'c'"
-PATHS_EAGER = ['slice_all', 'ellipsis', 'read_data', 'data', 'iter', 'index', 'index_again', 'raw_data', 'read_unscaled', 'window', 'raw_after_scaled']
-PATHS_LAZY = ['slice_all', 'ellipsis', 'read_data', 'iter', 'index', 'index_again', 'chan_chunks', 'file_chunks', 'read_unscaled', 'window', 'raw_after_scaled']
+PATHS_EAGER = ['slice_all', 'ellipsis', 'read_data', 'data', 'iter', 'index', 'index_again', 'full_after_index', 'tail_after_index', 'raw_data', 'read_unscaled', 'window', 'raw_after_scaled']
+PATHS_LAZY = ['slice_all', 'ellipsis', 'read_data', 'iter', 'index', 'index_again', 'full_after_index', 'tail_after_index', 'chan_chunks', 'file_chunks', 'read_unscaled', 'window', 'raw_after_scaled']
 
 from . import kdedup
 
@@ -33,7 +33,7 @@ META = dict(
                'tdms.TdmsChannel._read_at_index', 'tdms._convert_channel_data_chunk', 'channel_data.TimestampDataReceiver',
                'channel_data.NumpyDataReceiver', 'channel_data.ListDataReceiver', 'reader.TdmsReader.read_raw_data',
                'reader._array_equal', 'reader._deduplicate_array'],
-    bounds=dict(quick='9 file shapes (2-3 segments, <= 3 channels, <= 3 values x <= 2 chunks) x eager/lazy x raw_timestamps on/off x 11 access '
+    bounds=dict(quick='9 file shapes (2-3 segments, <= 3 channels, <= 3 values x <= 2 chunks) x eager/lazy x raw_timestamps on/off x 13 access '
                       'paths; index and window unbounded (lazy) / bounded (eager); kernel: offset-array comparison of _build_index on arrays of solver '
                       'integers, lengths 0-6 with block size 1-4 (general) and 0..201 around multiples of the default block (one differing position)',
                 thorough='same plus the C04 thorough family for the window path'),
@@ -191,6 +191,16 @@ def access(tf, ch, kind, ctx_int, n, tcode, raw_ts, eager, args=None):
         except IndexError:
             return 'IndexError', ('index', i)
         return [_one(v, tcode, raw_ts)], ('index', i)
+    if kind in ('full_after_index', 'tail_after_index'):
+        # an integer index first (fills the one-chunk cache when lazy), then an open-ended read of the same channel object
+        if n == 0:
+            return _canon(ch.read_data(), tcode, raw_ts), None
+        i = ctx_int('i', 0, n - 1)
+        ch[i]
+        if kind == 'full_after_index':
+            return _canon(ch.read_data(), tcode, raw_ts), None
+        o = ctx_int('offset', 0, n + 1 if eager else None)
+        return _canon(ch.read_data(o), tcode, raw_ts), ('window', o, None)
     if kind == 'window':
         o = ctx_int('offset', 0, n + 1 if eager else None)
         l = ctx_int('length', 0, n + 1 if eager else None)
@@ -329,6 +339,8 @@ def replay(art):
                 exp = [full[req[1]]]
             except IndexError:
                 exp = 'IndexError'
+        elif req[2] is None:
+            exp = full[req[1]:]
         else:
             exp = full[req[1]:req[1] + req[2]]
         if got != exp:
